@@ -69,7 +69,22 @@ def run(prop, tier, replay=None):
         pers = [json.loads(t) for t in sorted({f[0] for f in r4.printed("REPLAY")})]
         pers = [v for v in pers if not any(t["detached"] for t in v["hist"]) and len(v["hist"][0]["ops"]) == 1 and len(v["hist"][1]["ops"]) == 1]
         cov["histories_persist_family"] = len(pers)
-        inter = inter + pers
+        # script family: the same kind of history through the single-script executor (--cram-compat / Cram documents)
+        cfg5 = os.path.join(work, "GEN_script.cfg")
+        with open(cfg5, "w") as f:
+            f.write("SPECIFICATION Spec\nCONSTANTS\n  MaxTests = 3\n  MaxOps = 1\n  Family = \"script\"\nINVARIANTS CarriesOver Emit\nCHECK_DEADLOCK FALSE\n")
+        r5 = tlc("MC_ShellCarrier", cfg5, work, workers=min(NCPU, 8), timeout=3000, line_filter=lambda l: l.startswith('<<"REPLAY"') or l.startswith("Error"))
+        tlc_must_pass(r5, "ShellCarrier GEN script")
+        scr = [json.loads(t) for t in sorted({f[0] for f in r5.printed("REPLAY")})]
+        scr = [v for v in scr if len(v["hist"][0]["ops"]) == 1 and len(v["hist"][1]["ops"]) == 1]
+        nscr = 120 if tier == "quick" else len(scr)
+        keep_ = [v for v in scr if v["hist"][0]["ops"][0]["op"] == "cfgenv" and v["hist"][0]["ops"][0]["c"] in ("plain", "spaces")]
+        rest_ = [v for v in scr if v not in keep_]
+        scr = keep_ + (rest_ if len(rest_) <= nscr else rnd.sample(rest_, max(0, nscr - len(keep_))))
+        for v in scr:
+            v["exec"] = "script"
+        cov["histories_script_family"] = len(scr)
+        inter = inter + pers + scr
         cov["histories_interplay_family"] = len(inter)
         vectors = short + longs + inter
         for i, v in enumerate(vectors):
